@@ -15,7 +15,7 @@ RULE = (
     "mask of any kind, a reduction supporting transform (sum, mean, min, max, count, size, first, last, var, std, "
     "median, apply with a scalar function), a key representation (contiguous; chunk-wise with pointer tables, "
     "queried before and after the lazy unification triggered by an earlier transform/reduction on the same object) "
-    "and a values container (NumPy, pandas with default/shuffled/duplicate/string index, polars).  Non-trivial = "
+    "and a values container (NumPy, pandas with default/shuffled/duplicate/string/offset-range index, polars).  Non-trivial = "
     ">= 2 groups interleaved AND (a null-key row OR a group emptied by the mask).  Distinct = case hash."
 )
 ORACLE = ("relation T = op(transform=True) vs R = op(): len(T)==n, index == input index (RangeIndex for NumPy), container "
@@ -53,7 +53,7 @@ def case_strategy(draw, variant):
             "kw": {"ddof": draw(st.sampled_from([0, 1]))} if op in ("var", "std") else {},
             "sort": draw(st.sampled_from([True, True, False])),
             "threshold": draw(st.integers(1, n)), "key_chunks": draw(st.integers(1, 5)),
-            "render": {"vc": vc, "kc": "np", "index": draw(st.sampled_from(["default", "shuffled", "dup", "str"])),
+            "render": {"vc": vc, "kc": "np", "index": draw(st.sampled_from(["default", "shuffled", "dup", "str", "range5"])),
                        "mc": "np"}}
 
 
